@@ -71,6 +71,17 @@ def _die_with_parent():
     _pd.die_with_parent()
 
 
+def _limit_memory():
+    """address-space cap for one case process: symbolic blow-ups (towers of powers in C14/C18) reached 54 GB and brought the OOM killer in"""
+    import resource
+
+    cap = int(float(os.environ.get("VERIF_CASE_MEM_GB", "6")) * 2 ** 30)
+    try:
+        resource.setrlimit(resource.RLIMIT_AS, (cap, cap))
+    except (ValueError, OSError):
+        pass
+
+
 def guarded_run(prop, case, tier):
     """
     Run one case in a forked child process.  Every case therefore starts from the same process state (modules
@@ -92,7 +103,11 @@ def guarded_run(prop, case, tier):
             from . import polar_driver as _pd
 
             _pd.die_with_parent()
+            _limit_memory()
             v = _run_inline(prop, case, tier)
+            if "MemoryError" in str(v.get("bucket")) or (v.get("status") == "harness_error" and "MemoryError" in str(v.get("detail"))):
+                # the cap of _limit_memory was hit (by Polar or by the oracle): nothing is concluded from this case
+                v = dict(v, status="inconclusive", bucket="memory_limit", detail=None)
             data = json.dumps(v, default=str).encode()
             with os.fdopen(wfd, "wb") as f:
                 f.write(data)
@@ -127,7 +142,8 @@ def guarded_run(prop, case, tier):
     try:
         return _finish(json.loads(b"".join(chunks).decode()), case)
     except Exception:
-        return _finish({"status": "harness_error", "bucket": "child_died", "detail": "child process died without a verdict"}, case)
+        # aborted inside a C library (GMP aborts when the memory cap is hit) or killed from outside: no verdict, nothing concluded
+        return _finish({"status": "inconclusive", "bucket": "case_process_died"}, case)
 
 
 # ---------------------------------------------------------------------------------- worker
